@@ -1,6 +1,7 @@
 package storesim
 
 import (
+	"math"
 	"encoding/hex"
 	"encoding/json"
 	"fmt"
@@ -47,7 +48,15 @@ func bytesOf(s string) []int {
 }
 
 func (q iquery) rec() rec {
-	return rec{"prefix": bytesOf(q.prefix), "filter": q.filter, "offset": q.offset, "limit": q.limit, "reverse": q.reverse}
+	// for the reference a limit beyond the number of stored values is any such limit, a negative one is -1
+	lim := q.limit
+	if lim > 1000 {
+		lim = 1000
+	}
+	if lim < 0 {
+		lim = -1
+	}
+	return rec{"prefix": bytesOf(q.prefix), "filter": q.filter, "offset": q.offset, "limit": lim, "reverse": q.reverse}
 }
 
 func (q iquery) values() url.Values {
@@ -255,7 +264,9 @@ var c13keys = []string{"", "a", "b", "c", "aa", "ab", "ca", "\xff", "a\xff", "a\
 var c13prefixes = []string{"", "a", "b", "c", "aa", "ab", "ac", "ca", "d", "aab", "a\x00", "\x00", "ab\x00a", "\xff", "a\xff"}
 
 func randQuery(rng *rand.Rand) iquery {
-	return iquery{prefix: c13prefixes[rng.Intn(len(c13prefixes))], filter: []string{"none", "none", "odd"}[rng.Intn(3)], offset: rng.Intn(4), limit: []int{-1, -1, 0, 1, 2, 5}[rng.Intn(6)], reverse: rng.Intn(2) == 0}
+	return iquery{prefix: c13prefixes[rng.Intn(len(c13prefixes))], filter: []string{"none", "none", "odd"}[rng.Intn(3)], offset: rng.Intn(4),
+		// (limits at the edge of the integer range: "as many as there are")
+		limit: []int{-1, -1, 0, 1, 2, 5, math.MaxInt64, math.MaxInt64 - 2, math.MaxInt32, math.MinInt64}[rng.Intn(10)], reverse: rng.Intn(2) == 0}
 }
 
 func randMutation(w *c13world, rng *rand.Rand) (string, *string, bool) {
